@@ -244,6 +244,33 @@ pub fn run(ctx: &Ctx) -> Report {
     });
     st = st.merge(st_f);
 
+    // (h) very long paths, also ones whose canonical form is three times as long as the input (every byte of the
+    //     first segment escaped), around the 16-bit and 15-bit size boundaries, followed by dot-segment tails
+    let big_lens: Vec<usize> = if ctx.tier.thorough() {
+        vec![10_000, 21_000, 21_843, 21_844, 21_845, 21_846, 22_000, 32_766, 32_767, 32_768, 40_000, 65_533, 65_534, 65_535, 65_536, 65_537, 70_000, 131_072, 200_000]
+    } else {
+        vec![21_845, 21_846, 22_000, 32_768, 65_535, 65_536, 70_000]
+    };
+    let big_units = ["a", "*", "%2a", "%41"];
+    let big_tails = ["", "/", "/x", "/x/..", "/x/../y", "/./y", "//y", "/..", "/x/y/../../z", "/x/../../y"];
+    let n_h = (big_lens.len() * big_units.len() * big_tails.len() * 2) as u64;
+    let off_h = total_a + n_b + n_f + 1_000_000;
+    let st_h = par_sweep(n_h, |i, st| {
+        let mut x = i as usize;
+        let s3 = x % 2 == 1;
+        x /= 2;
+        let tail = big_tails[x % big_tails.len()];
+        x /= big_tails.len();
+        let unit = big_units[x % big_units.len()];
+        x /= big_units.len();
+        let len = big_lens[x];
+        let first: String = unit.repeat(len / unit.len());
+        let path = format!("/{}{}", first, tail);
+        let label = eval(off_h + i, &path, s3, st);
+        st.outcome(&format!("big:{}:{}", if s3 { "s3" } else { "std" }, label));
+    });
+    st = st.merge(st_h);
+
     // (g) histories: every ordered pair of (path, mode) symbols back to back on one thread, over related paths:
     //     prefixes / extensions, escape-case and separator variants, long paths with a long common prefix
     let hist_paths: Vec<String> = {
@@ -285,8 +312,8 @@ pub fn run(ctx: &Ctx) -> Report {
     Report {
         stats: st,
         rule: format!(
-            "all paths of 0..={} segments over the {}-symbol alphabet {:?} x trailing slash x {{standard,S3}}; every ASCII byte literal (3 contexts), every 2-byte UTF-8 char literal, every %XX in 4 hex-case spellings, every two-character escape %c1c2 over ASCII^2 (2 contexts), '%' followed by every pair over 10 units incl. 2/3/4-byte characters, 40 special paths; every path of <= {} segments behind a first segment padded to {} lengths (0..5000 bytes, every length 56..70 and 1020..1026) canonicalised in both modes back to back on one thread, in both orders; every ordered pair over 78 (path, mode) symbols of related paths (prefixes / extensions, escape-case and separator variants, 90-byte and 30-segment paths differing only at the end) back to back on one thread; plus end-to-end signing of all <=3-segment paths. states = distinct (mode, reference normal form | error class); non-trivial = input differs from its normal form or is refused",
-            max_segs, SEGMENTS.len(), SEGMENTS, short_segs, pad_lens.len()
+            "all paths of 0..={} segments over the {}-symbol alphabet {:?} x trailing slash x {{standard,S3}}; every ASCII byte literal (3 contexts), every 2-byte UTF-8 char literal, every %XX in 4 hex-case spellings, every two-character escape %c1c2 over ASCII^2 (2 contexts), '%' followed by every pair over 10 units incl. 2/3/4-byte characters, 40 special paths; every path of <= {} segments behind a first segment padded to {} lengths (0..5000 bytes, every length 56..70 and 1020..1026) canonicalised in both modes back to back on one thread, in both orders; every ordered pair over 78 (path, mode) symbols of related paths (prefixes / extensions, escape-case and separator variants, 90-byte and 30-segment paths differing only at the end) back to back on one thread; first segments of {} lengths between 10 000 and 200 000 bytes (around 21 845 = 65 535/3, 32 768 and 65 536) made of plain, to-be-escaped and escaped bytes, followed by 10 dot-segment tails; plus end-to-end signing of all <=3-segment paths. states = distinct (mode, reference normal form | error class); non-trivial = input differs from its normal form or is refused",
+            max_segs, SEGMENTS.len(), SEGMENTS, short_segs, pad_lens.len(), big_lens.len()
         ),
         bounds: json!({"max_segments": max_segs, "alphabet": SEGMENTS.len(), "modes": 2}),
         exhaustive: true,
